@@ -1,4 +1,5 @@
 import ProcSim.Lemmas.SimCore
+import ProcSim.Lemmas.Routes
 import ProcSim.Props.C19
 /-!
 # Register hazards: the access plan, the queue invariant and what it implies (C01, C02)
@@ -1058,6 +1059,223 @@ theorem PlanInv.step {p : Proc N} {prog : List (Instr N)} (hwf : wfProc p = true
       | false => rfl
       | true => exact absurd (this.2 h) hm
     simp [hm, this]
+
+/-! ## 5. Walks, maximal routes and the position of the locks
+
+What `wfProc` says about routes (`routeLocksOK` on every maximal route of `routesFrom`) is transferred to walks: a walk
+from an input-boundary port along declared connections through units supporting a capability is a prefix of a maximal
+route. -/
+
+section walks
+omit [LT N] [DecidableRel (α := N) (· < ·)]
+
+/-- a non-empty path along declared connections through units supporting capability `c` -/
+def IsWalk (p : Proc N) (c : N) : List (UnitM N) → Prop
+  | [] => False
+  | [u] => c ∈ u.caps
+  | u :: v :: rest => c ∈ u.caps ∧ v ∈ succsOf p u.name ∧ IsWalk p c (v :: rest)
+
+theorem IsWalk.snoc {p : Proc N} {c : N} {w : List (UnitM N)} {q u : UnitM N} (h : IsWalk p c (w ++ [q]))
+    (hs : u ∈ succsOf p q.name) (hc : c ∈ u.caps) : IsWalk p c (w ++ [q] ++ [u]) := by
+  induction w with
+  | nil => exact ⟨h, hs, hc⟩
+  | cons a t ih =>
+    cases t with
+    | nil => exact ⟨h.1, h.2.1, ih h.2.2⟩
+    | cons b t' => exact ⟨h.1, h.2.1, ih h.2.2⟩
+
+theorem mem_succsOf' {p : Proc N} {n : N} {v : UnitM N} :
+    v ∈ succsOf p n ↔ ∃ d ∈ p.dests, n ∈ d.preds ∧ d.model = v := by
+  simp only [succsOf, List.mem_map, List.mem_filter, decide_eq_true_eq]
+  constructor
+  · rintro ⟨d, ⟨h1, h2⟩, h3⟩; exact ⟨d, h1, h2, h3⟩
+  · rintro ⟨d, h1, h2, h3⟩; exact ⟨d, ⟨h1, h2⟩, h3⟩
+
+/-- position in the processing order (sources that are no destination come last) -/
+def rank (p : Proc N) (n : N) : Nat := (destPos p n).getD p.dests.length
+
+theorem rank_le (p : Proc N) (n : N) : rank p n ≤ p.dests.length := by
+  unfold rank destPos
+  cases h : p.dests.findIdx? (fun d => decide (d.model.name = n)) with
+  | none => simp
+  | some k => have := (List.findIdx?_eq_some_iff_findIdx_eq.1 h).1; simp; omega
+
+/-- connections lead to units processed earlier: the graph is acyclic -/
+theorem rank_succ_lt {p : Proc N} (ho : orderOK p = true) {q : N} {v : UnitM N} (hv : v ∈ succsOf p q) :
+    rank p v.name < rank p q := by
+  obtain ⟨d, hd, hq, rfl⟩ := mem_succsOf'.1 hv
+  obtain ⟨kd, hkd⟩ := destPos_isSome_of_mem hd
+  have hlt : kd < p.dests.length := by
+    unfold destPos at hkd
+    exact (List.findIdx?_eq_some_iff_findIdx_eq.1 hkd).1
+  unfold rank
+  rw [hkd]
+  cases hkq : destPos p q with
+  | none => simpa using hlt
+  | some kq =>
+    obtain ⟨kd', hkd', hlt'⟩ := (orderOK_pred ho hd hq).2.2 kq hkq
+    rw [hkd] at hkd'; cases hkd'
+    simpa using hlt'
+
+theorem IsWalk.length_le {p : Proc N} (ho : orderOK p = true) {c : N} {u : UnitM N} {rest : List (UnitM N)}
+    (h : IsWalk p c (u :: rest)) : rest.length ≤ rank p u.name := by
+  induction rest generalizing u with
+  | nil => simp
+  | cons v t ih =>
+    have := ih h.2.2
+    have := rank_succ_lt ho h.2.1
+    simp only [List.length_cons]; omega
+
+theorem routesFrom_ne_nil (p : Proc N) (c : N) (fuel : Nat) (u : UnitM N) :
+    ∃ r ∈ routesFrom p c fuel u, ∃ t, r = u :: t := by
+  induction fuel generalizing u with
+  | zero => exact ⟨[u], by simp [routesFrom], [], rfl⟩
+  | succ f ih =>
+    unfold routesFrom
+    simp only
+    split
+    · exact ⟨[u], by simp, [], rfl⟩
+    · next hne =>
+      cases hn : (succsOf p u.name).filter (fun v => decide (c ∈ v.caps)) with
+      | nil => simp [hn] at hne
+      | cons v vs =>
+        obtain ⟨r, hr, t, rfl⟩ := ih v
+        refine ⟨u :: v :: t, ?_, _, rfl⟩
+        simp only [List.mem_map, List.mem_flatMap]
+        exact ⟨v :: t, ⟨v, List.mem_cons_self, hr⟩, rfl⟩
+
+/-- a walk is a prefix of a maximal route (if the fuel covers its length) -/
+theorem IsWalk.prefix_route {p : Proc N} {c : N} {u : UnitM N} {rest : List (UnitM N)} (h : IsWalk p c (u :: rest))
+    {fuel : Nat} (hf : rest.length ≤ fuel) : ∃ r ∈ routesFrom p c fuel u, (u :: rest) <+: r := by
+  induction rest generalizing u fuel with
+  | nil =>
+    obtain ⟨r, hr, t, rfl⟩ := routesFrom_ne_nil p c fuel u
+    exact ⟨_, hr, by simp⟩
+  | cons v t ih =>
+    cases fuel with
+    | zero => simp at hf
+    | succ f =>
+      obtain ⟨r, hr, hpre⟩ := ih h.2.2 (fuel := f) (by simpa using hf)
+      have hv : v ∈ (succsOf p u.name).filter (fun v => decide (c ∈ v.caps)) := by
+        refine List.mem_filter.2 ⟨h.2.1, ?_⟩
+        have : c ∈ v.caps := by
+          cases t with
+          | nil => exact h.2.2
+          | cons _ _ => exact h.2.2.1
+        simpa using this
+      refine ⟨u :: r, ?_, (List.prefix_cons_inj u).2 hpre⟩
+      unfold routesFrom
+      simp only
+      split
+      · next he => rw [List.isEmpty_iff] at he; rw [he] at hv; cases hv
+      · simp only [List.mem_map, List.mem_flatMap]
+        exact ⟨r, ⟨v, hv, hr⟩, rfl⟩
+
+theorem mem_dedup {α : Type} [DecidableEq α] {l : List α} {a : α} : a ∈ dedup l ↔ a ∈ l := by
+  induction l with
+  | nil => simp [dedup]
+  | cons x xs ih =>
+    unfold dedup
+    by_cases e : a = x
+    · subst e; simp
+    · simp [List.mem_filter, ih, e]
+
+theorem routeLocksOK_iff {r : List (UnitM N)} (h : routeLocksOK r = true) :
+    ∃ a b, a ≤ b ∧ (∀ k (v : UnitM N), r[k]? = some v → v.rd = true → k = a) ∧
+      (∀ k (v : UnitM N), r[k]? = some v → v.wr = true → k = b) ∧
+      (∃ v : UnitM N, r[a]? = some v ∧ v.rd = true) := by
+  unfold routeLocksOK at h
+  simp only at h
+  split at h
+  · next a b ha hb =>
+    refine ⟨a, b, by simpa using h, ?_, ?_, ?_⟩
+    · intro k v hk hv
+      have : k ∈ (List.range r.length).filter (fun k => (r[k]?.map (·.rd)).getD false) := by
+        refine List.mem_filter.2 ⟨List.mem_range.2 ?_, by simp [hk, hv]⟩
+        exact (List.getElem?_eq_some_iff.1 hk).1
+      rw [ha] at this; simpa using this
+    · intro k v hk hv
+      have : k ∈ (List.range r.length).filter (fun k => (r[k]?.map (·.wr)).getD false) := by
+        refine List.mem_filter.2 ⟨List.mem_range.2 ?_, by simp [hk, hv]⟩
+        exact (List.getElem?_eq_some_iff.1 hk).1
+      rw [hb] at this; simpa using this
+    · have : a ∈ (List.range r.length).filter (fun k => (r[k]?.map (·.rd)).getD false) := by rw [ha]; simp
+      have h2 := (List.mem_filter.1 this).2
+      cases hr : r[a]? with
+      | none => simp [hr] at h2
+      | some v => exact ⟨v, rfl, by simpa [hr] using h2⟩
+  · cases h
+
+/-- **Where the locks are on a walk from an input-boundary port** (for a well-formed processor): the last unit `u` of the
+walk is the only read-locking (write-locking) unit if it holds the read (write) lock, and if it holds the write lock
+only, the read-locking unit was passed before. -/
+theorem walk_locks {p : Proc N} (hwf : wfProc p = true) {c : N} {w : List (UnitM N)} {u : UnitM N}
+    (hw : IsWalk p c (w ++ [u])) (hstart : ∃ v0 ∈ p.inBoundary, (w ++ [u]).head? = some v0) :
+    (u.rd = true → w.any (·.rd) = false) ∧ (u.wr = true → w.any (·.wr) = false) ∧
+    (u.wr = true → u.rd = false → w.any (·.rd) = true) := by
+  obtain ⟨v0, hv0, hhead⟩ := hstart
+  obtain ⟨rest, hW⟩ : ∃ rest, w ++ [u] = v0 :: rest := by
+    cases hwu : w ++ [u] with
+    | nil => simp at hwu
+    | cons a t => rw [hwu] at hhead; simp at hhead; exact ⟨t, by rw [hhead]⟩
+  rw [hW] at hw
+  have ho := wfProc_orderOK hwf
+  have hlen : rest.length ≤ p.allUnits.length := by
+    have h1 := hw.length_le ho
+    have h2 := rank_le p v0.name
+    have h3 : p.dests.length ≤ p.allUnits.length := by
+      simp only [Proc.allUnits, Proc.dests, List.length_append, List.length_map]; omega
+    omega
+  obtain ⟨r, hr, hpre⟩ := hw.prefix_route hlen
+  have hc0 : c ∈ v0.caps := by
+    cases rest with
+    | nil => exact hw
+    | cons _ _ => exact hw.1
+  have hcap : c ∈ allCaps p := by
+    unfold allCaps
+    rw [mem_dedup, List.mem_flatMap]
+    exact ⟨v0, mem_allUnits_of_mem_inBoundary hv0, hc0⟩
+  have hok := wfProc_routes hwf c hcap v0 hv0 hc0 r hr
+  obtain ⟨a, b, hab, hrd, hwr, va, hva, hvard⟩ := routeLocksOK_iff hok
+  rw [← hW] at hpre
+  obtain ⟨t, ht⟩ := hpre
+  -- positions inside the walk
+  have hget : ∀ k, k < (w ++ [u]).length → r[k]? = (w ++ [u])[k]? := by
+    intro k hk; rw [← ht]; exact List.getElem?_append_left hk
+  have hu : r[w.length]? = some u := by
+    rw [hget _ (by simp)]; simp
+  have hwk : ∀ v ∈ w, ∃ k, k < w.length ∧ r[k]? = some v := by
+    intro v hv
+    obtain ⟨k, hk⟩ := List.mem_iff_getElem?.1 hv
+    have hlt : k < w.length := (List.getElem?_eq_some_iff.1 hk).1
+    refine ⟨k, hlt, ?_⟩
+    rw [hget k (by simp; omega), List.getElem?_append_left hlt]; exact hk
+  refine ⟨?_, ?_, ?_⟩
+  · intro hurd
+    have ea := hrd _ _ hu hurd
+    rw [List.any_eq_false]
+    intro v hv hvr
+    obtain ⟨k, hk, hrk⟩ := hwk v hv
+    have := hrd _ _ hrk hvr
+    omega
+  · intro huwr
+    have eb := hwr _ _ hu huwr
+    rw [List.any_eq_false]
+    intro v hv hvr
+    obtain ⟨k, hk, hrk⟩ := hwk v hv
+    have := hwr _ _ hrk hvr
+    omega
+  · intro huwr hurd
+    have eb := hwr _ _ hu huwr
+    have hne : a ≠ w.length := by
+      intro e; rw [e, hu] at hva; cases hva; rw [hurd] at hvard; cases hvard
+    have hlt : a < w.length := by omega
+    rw [List.any_eq_true]
+    refine ⟨va, ?_, hvard⟩
+    rw [hget a (by simp; omega), List.getElem?_append_left hlt] at hva
+    exact List.mem_of_getElem? hva
+
+end walks
 
 end Hazards
 end ProcSim
